@@ -874,12 +874,14 @@ def spell_json(doc, spelling):
     return json.dumps(doc)
 
 
-def c19_resolve_case(flags, filecfg, tables, spelling="plain", where="cwd"):
+def c19_resolve_case(flags, filecfg, tables, spelling="plain", where="cwd", places=None):
     """one combination of command-line flags and a discovered tauri.conf.json block (`where`: which of the three places the
-    tool looks in holds the document - the working directory, ./src-tauri, or the parent directory)"""
+    tool looks in holds the document - the working directory, ./src-tauri, or the parent directory; `places`: what each of
+    the three holds, in the tool's order - None (no file), "unreadable" (not JSON), "noblock" (a document without a typegen
+    entry) or a block)"""
     top = proc.sandbox("c19")
     try:
-        root = os.path.join(top, "app") if where == "parent" else top
+        root = os.path.join(top, "app") if (where == "parent" or places is not None) else top
         os.makedirs(root, exist_ok=True)
         c19_project(root, "src-tauri", "from_default")
         c19_project(root, "projA", "from_file")
@@ -887,7 +889,26 @@ def c19_resolve_case(flags, filecfg, tables, spelling="plain", where="cwd"):
         # an existing project without any command (an unsupported library is an error there too)
         proc.write_files(os.path.join(root, "empty_proj"), {"lib.rs": "pub fn helper() {}\n"})
         doc = None
-        if filecfg is not None:
+        place_docs = None
+        if places is not None:
+            place_docs = []
+            for at, pl in zip((root, os.path.join(root, "src-tauri"), top), places):
+                if pl is None:
+                    place_docs.append(None)
+                    continue
+                if pl == "unreadable":
+                    text, d = "{ \"plugins\": { \"typegen\": ", "unreadable"
+                elif pl == "noblock":
+                    d = {"productName": "demo", "plugins": {"shell": {"open": True}}}
+                    text = json.dumps(d)
+                else:
+                    d = {"productName": "demo", "plugins": {"typegen": pl}}
+                    text = spell_json(d, spelling)
+                place_docs.append(d)
+                with open(os.path.join(at, "tauri.conf.json"), "w") as fh:
+                    fh.write(text)
+            filecfg = next((pl for pl in places if isinstance(pl, dict)), None)
+        elif filecfg is not None:
             doc = {"productName": "demo", "plugins": {"typegen": filecfg}}
             conf_at = {"cwd": root, "src-tauri": os.path.join(root, "src-tauri"), "parent": top}[where]
             with open(os.path.join(conf_at, "tauri.conf.json"), "w") as fh:
@@ -913,7 +934,8 @@ def c19_resolve_case(flags, filecfg, tables, spelling="plain", where="cwd"):
             observed = {"err": kind}
         else:
             outdir = None
-            for cand in set([flags.get("o"), (filecfg or {}).get("outputPath"), "./src/generated"]) - {None}:
+            cands = [flags.get("o"), (filecfg or {}).get("outputPath"), "./src/generated"] + [pl.get("outputPath") for pl in (places or []) if isinstance(pl, dict)]
+            for cand in set(cands) - {None}:
                 if os.path.isfile(os.path.join(root, cand, "commands.ts")):
                     outdir = cand
             if outdir is None:
@@ -932,14 +954,14 @@ def c19_resolve_case(flags, filecfg, tables, spelling="plain", where="cwd"):
                 observed = {"ok": {"projectPath": pp[0] if pp else "?", "outputPath": outdir, "validationLibrary": lib,
                                    "verbose": verbose, "force": s1.get("types.ts") != s2.get("types.ts")}}
         existing = ["./src-tauri", "projA", "projB", "empty_proj"]
-        req = {"op": "configResolve", "h": core.hashlib.sha1(json.dumps([flags, filecfg], sort_keys=True).encode()).hexdigest()[:16],
-               "in": {"flags": flags, "doc": doc, "existing": existing},
+        req = {"op": "configResolve", "h": core.hashlib.sha1(json.dumps([flags, filecfg, places], sort_keys=True).encode()).hexdigest()[:16],
+               "in": dict({"flags": flags, "doc": doc, "existing": existing}, **({"places": place_docs} if place_docs is not None else {})),
                "impl": {"observed": observed, "wrote_anything": wrote and rc != 0}, "meta": {}}
         # stated outright, whatever the model says: a path flag names a place relative to where the tool was started
         orc = {"path_flags_in_effect":
                not (rc == 0 and "o" in flags and not os.path.isfile(os.path.join(root, flags["o"], "commands.ts")))
                and not ("p" in flags and os.path.isdir(os.path.join(root, flags["p"])) and (observed or {}).get("err") == "path")}
-        return Case({"what": "resolve", "flags": flags, "file": filecfg, "spelling": spelling, "where": where}, orc, [], request=req,
+        return Case({"what": "resolve", "flags": flags, "file": filecfg, "spelling": spelling, "where": where, "places": places}, orc, [], request=req,
                     detail={"rc": rc, "stderr": se[-300:], "observed": observed})
     finally:
         proc.cleanup(top)
@@ -1056,7 +1078,7 @@ def cases_c19(ctx):
             return [c19_init_target_case(d["output"], d["lib"])]
         if d.get("what") == "init_badpath":
             return [c19_init_badpath_case(d["project"], d["output"])]
-        return [c19_resolve_case(d["flags"], d["file"], ctx["tables"], d.get("spelling", "plain"), d.get("where", "cwd"))]
+        return [c19_resolve_case(d["flags"], d["file"], ctx["tables"], d.get("spelling", "plain"), d.get("where", "cwd"), d.get("places"))]
     files = [None,
              {"projectPath": "projA", "outputPath": "outFile", "validationLibrary": "zod"},
              {"projectPath": "projA", "outputPath": "outFile", "validationLibrary": "zod", "verbose": True, "force": True},
@@ -1085,6 +1107,20 @@ def cases_c19(ctx):
             flags = {k: v for i, (k, v) in enumerate(flag_keys) if mask >> i & 1}
             for f in (files[1], files[2], files[5]):
                 jobs.append((flags, f, ctx["tables"], "plain", where))
+    # every arrangement of {no file, not JSON, no typegen entry, block A, block B} over the three places (quick: those with a
+    # readable document, one flag set each; thorough: all 125 x 3 flag sets): the first readable document decides
+    blockA = {"projectPath": "projA", "outputPath": "outFile", "validationLibrary": "zod"}
+    blockB = {"projectPath": "projB", "outputPath": "outOther", "validationLibrary": "none", "force": True}
+    kinds = [None, "unreadable", "noblock", blockA, blockB]
+    k = 0
+    for a in kinds:
+        for b in kinds:
+            for c in kinds:
+                for fl in ({}, {"o": "outFlag"}, {"p": "projB", "v": "none", "verbose": True}):
+                    k += 1
+                    if tier != "thorough" and (k % 3 != 0 or all(x is None for x in (a, b, c))):
+                        continue
+                    jobs.append((fl, None, ctx["tables"], "plain", "cwd", [a, b, c]))
     jobs.append(({"v": "yup", "p": "empty_proj"}, files[1], ctx["tables"]))
     jobs.append(({"p": "empty_proj"}, files[3], ctx["tables"]))
     jobs.append(({"v": "yup"}, files[1], ctx["tables"]))
